@@ -17,6 +17,7 @@
 package encoder
 
 import (
+	"errors"
 	"reflect"
 	"unsafe"
 
@@ -114,6 +115,9 @@ func (self *Compiler) rescue(ep *error) {
 	if val := recover(); val != nil {
 		if err, ok := val.(error); ok {
 			*ep = err
+		} else if msg, ok := val.(string); ok {
+			/* compile-time limits ("type nesting too deep") are reported, not thrown */
+			*ep = errors.New("sonic: " + msg)
 		} else {
 			panic(val)
 		}
